@@ -29,6 +29,9 @@ type Case struct {
 	JSON      string         `json:"json_text"`
 	Oracle    *bool          `json:"oracle_valid"`
 	OracleMsg string         `json:"oracle_first_error,omitempty"`
+	// JSONOnly: the JSON text uses spellings that have no YAML counterpart byte for byte (raw DEL /
+	// C1 / non-characters, surrogate-pair escapes): only the JSON entry points are exercised
+	JSONOnly bool `json:"json_text_only,omitempty"`
 	// the document an in-memory Spec decoded from Doc denotes (for ValidateType / Validate)
 	typedJSON   string
 	typedOracle *bool
@@ -110,7 +113,7 @@ func eval(c Case, sc schemas, dir string) hx.Result {
 		}
 		j := []byte(c.JSON)
 		yBlock := gen.RenderYAML(c.Doc)
-		haveBlock := faithfulYAML(yBlock, j)
+		haveBlock := faithfulYAML(yBlock, j) && !c.JSONOnly
 		yFlow := append([]byte("# the same document in YAML flow style\n"), j...)
 		jsonPath := filepath.Join(dir, "doc.json")
 		yamlPath := filepath.Join(dir, "doc.yaml")
@@ -126,13 +129,17 @@ func eval(c Case, sc schemas, dir string) hx.Result {
 			s    *schema.Schema
 		}{{"builtin", sc.builtin}, {"external-copy", sc.external}} {
 			eps = append(eps, ep{s.name + ":ValidateData(json)", verdictOf(s.s.ValidateData(j))})
-			eps = append(eps, ep{s.name + ":ValidateData(yaml-flow)", verdictOf(s.s.ValidateData(yFlow))})
+			if !c.JSONOnly {
+				eps = append(eps, ep{s.name + ":ValidateData(yaml-flow)", verdictOf(s.s.ValidateData(yFlow))})
+			}
 			if haveBlock {
 				eps = append(eps, ep{s.name + ":ValidateData(yaml-block)", verdictOf(s.s.ValidateData(yBlock))})
 			}
 			eps = append(eps, ep{s.name + ":ValidateFile(.json)", verdictOf(s.s.ValidateFile(jsonPath))})
-			_ = os.WriteFile(yamlPath, yFlow, 0o644)
-			eps = append(eps, ep{s.name + ":ValidateFile(.yaml flow)", verdictOf(s.s.ValidateFile(yamlPath))})
+			if !c.JSONOnly {
+				_ = os.WriteFile(yamlPath, yFlow, 0o644)
+				eps = append(eps, ep{s.name + ":ValidateFile(.yaml flow)", verdictOf(s.s.ValidateFile(yamlPath))})
+			}
 			if haveBlock {
 				_ = os.WriteFile(yamlPath, yBlock, 0o644)
 				eps = append(eps, ep{s.name + ":ValidateFile(.yaml block)", verdictOf(s.s.ValidateFile(yamlPath))})
@@ -180,8 +187,10 @@ func eval(c Case, sc schemas, dir string) hx.Result {
 			if !isObject {
 				break // a document that is not an object is outside the statement's quantifier for this clause
 			}
-			checks := map[string]error{"ValidateData(json)": s.ValidateData(j), "ValidateData(yaml-flow)": s.ValidateData(yFlow), "ValidateFile(.json)": s.ValidateFile(jsonPath),
-				"ValidateReader": s.ValidateReader(bytes.NewReader(j))}
+			checks := map[string]error{"ValidateData(json)": s.ValidateData(j), "ValidateFile(.json)": s.ValidateFile(jsonPath), "ValidateReader": s.ValidateReader(bytes.NewReader(j))}
+			if !c.JSONOnly {
+				checks["ValidateData(yaml-flow)"] = s.ValidateData(yFlow)
+			}
 			if haveBlock {
 				checks["ValidateData(yaml-block)"] = s.ValidateData(yBlock)
 			}
@@ -285,6 +294,27 @@ func main() {
 		var t any
 		_ = json.Unmarshal([]byte(extra), &t)
 		cases = append(cases, Case{Base: "hand-written:" + extra, Doc: t, JSON: extra})
+	}
+	// JSON texts whose strings are spelled in ways only JSON knows: the same document with one
+	// string value written with a raw DEL / C1 control / non-character / unescaped non-BMP
+	// character, or with \u escapes (incl. a surrogate pair). The JSON entry points must treat
+	// them as the JSON they are (not feed them to a YAML reader).
+	if len(bases) > 0 {
+		const ph = "@@PLACEHOLDER@@"
+		b := bases[0]
+		tree := gen.Apply(b.Tree, gen.Mutation{Class: "json-spelling", Path: gen.Path{"devices", 0, "containerEdits", "env"}, Op: "set", Value: []any{"A=" + ph}})
+		text := string(gen.RenderJSON(tree))
+		if strings.Contains(text, ph) {
+			for name, lit := range map[string]string{"raw-DEL": "a\x7fb", "raw-C1": "a\u0085b\u009f", "raw-U+FFFE": "\ufffe", "raw-non-BMP": "\U0001F600", "escaped-surrogate-pair": `\ud83d\ude00`,
+				"escaped-DEL": `\u007f`, "escaped-NUL": `\u0000`, "escaped-slash-and-quotes": `\/\"\\`, "plain": "plain"} {
+				jt := strings.Replace(text, ph, lit, 1)
+				var doc any
+				if json.Unmarshal([]byte(jt), &doc) != nil {
+					die(2, "INFRA: hand-made JSON text does not parse:", name)
+				}
+				cases = append(cases, Case{Base: b.Name, Mutations: []gen.Mutation{{Class: "json-spelling:" + name}}, Doc: doc, JSON: jt, JSONOnly: true})
+			}
+		}
 	}
 	if r.Replay != "" {
 		var c Case
